@@ -164,7 +164,7 @@ func (e *Env) Eval(x Expr) (interface{}, error) {
 		if err != nil {
 			return nil, err
 		}
-		b, ok := v.(bool)
+		b, ok := Norm(v).(bool)
 		if !ok {
 			return nil, ErrFault
 		}
@@ -184,8 +184,8 @@ func (e *Env) Eval(x Expr) (interface{}, error) {
 			if err != nil {
 				return nil, err
 			}
-			lb, ok1 := l.(bool)
-			rb, ok2 := r.(bool)
+			lb, ok1 := Norm(l).(bool)
+			rb, ok2 := Norm(r).(bool)
 			if !ok1 || !ok2 {
 				return nil, ErrFault
 			}
@@ -254,12 +254,24 @@ func (e *Env) call(c *CallE) (interface{}, error) {
 		return nil, ErrFault
 	}
 	ft := fn.Type()
-	if ft.IsVariadic() || ft.NumIn() != len(args) {
+	fixed := ft.NumIn()
+	if ft.IsVariadic() {
+		// the fixed parameters are converted like any others, the rest to the element type of the tail
+		fixed--
+		if len(args) < fixed {
+			return nil, ErrUndefined
+		}
+	} else if ft.NumIn() != len(args) {
 		return nil, ErrUndefined
 	}
 	in := make([]reflect.Value, len(args))
 	for i, a := range args {
-		pt := ft.In(i)
+		var pt reflect.Type
+		if i < fixed {
+			pt = ft.In(i)
+		} else {
+			pt = ft.In(fixed).Elem()
+		}
 		switch pt.Kind() {
 		case reflect.Interface:
 			if a == nil {
@@ -463,7 +475,7 @@ func (e *Env) cond(x Expr) (bool, error) {
 	if err != nil {
 		return false, err
 	}
-	b, ok := v.(bool)
+	b, ok := Norm(v).(bool)
 	if !ok {
 		return false, ErrFault
 	}
